@@ -672,6 +672,27 @@ type opGrammar struct {
 	Grouped  bool // levels with two binary operators are written as one grouped production with a rule handle
 	// where the directives stand: 0 before the rule, 1 after it, 2 the first level before and the others after
 	DirectivesAt int
+	// UnaryAt >= 0: the prefix operator Prefix[0] has the symbol of a binary operator and is also named by the rule handle
+	// <start = "op" start> in a level of its own, inserted before Levels[UnaryAt].  Documented: a production with a
+	// terminal inherits the precedence of its leftmost terminal, so this level must change nothing.
+	UnaryAt    int
+	UnaryAssoc string
+}
+
+const unaryMark = "\x00unary"
+
+// allLevels returns the levels in source order, the level of the unary rule handle marked by unaryMark.
+func (o *opGrammar) allLevels() [][]string {
+	if o.UnaryAt < 0 || len(o.Prefix) == 0 {
+		return o.Levels
+	}
+	at := o.UnaryAt
+	if at > len(o.Levels) {
+		at = len(o.Levels)
+	}
+	out := append([][]string{}, o.Levels[:at]...)
+	out = append(out, []string{o.UnaryAssoc, unaryMark})
+	return append(out, o.Levels[at:]...)
 }
 
 func (o *opGrammar) text() string {
@@ -684,8 +705,14 @@ func (o *opGrammar) text() string {
 	}
 	grouped := map[string]bool{}
 	var alts []string
-	for _, lvl := range o.Levels {
+	for _, lvl := range o.allLevels() {
 		b.WriteString(lvl[0])
+		if len(lvl) == 2 && lvl[1] == unaryMark {
+			fmt.Fprintf(&b, " <start = %q start>", o.Prefix[0])
+			levelLines = append(levelLines, b.String()+" ;\n")
+			b.Reset()
+			continue
+		}
 		var bins []string
 		for _, op := range lvl[1:] {
 			if isBinary[op] {
@@ -729,17 +756,24 @@ func (o *opGrammar) text() string {
 
 func (o *opGrammar) infos() (binary, prefix map[string]ref.OpInfo) {
 	binary, prefix = map[string]ref.OpInfo{}, map[string]ref.OpInfo{}
-	n := len(o.Levels)
-	for i, lvl := range o.Levels {
+	levels := o.allLevels()
+	n := len(levels)
+	for i, lvl := range levels {
 		for _, op := range lvl[1:] {
 			info := ref.OpInfo{Prec: n - i, Right: lvl[0] == "@right"}
+			if op == unaryMark {
+				// documented: a production that contains a terminal inherits the precedence of its leftmost terminal;
+				// a rule handle can assign one only to productions without terminals.  The level changes nothing.
+				continue
+			}
 			for _, b := range o.Binary {
 				if b == op {
 					binary[op] = info
 				}
 			}
-			for _, p := range o.Prefix {
+			for pi, p := range o.Prefix {
 				if p == op {
+					_ = pi
 					prefix[op] = info
 				}
 			}
@@ -828,6 +862,11 @@ func genOps(t *rapid.T) *opGrammar {
 		}
 		i += k
 	}
+	o.UnaryAt = -1
+	if np > 0 && o.Prefix[0] == o.Binary[0] && o.Missing != o.Binary[0] && rapid.Bool().Draw(t, "unaryHandle") {
+		o.UnaryAt = rapid.IntRange(0, len(o.Levels)).Draw(t, "unaryAt")
+		o.UnaryAssoc = rapid.SampledFrom([]string{"@left", "@right"}).Draw(t, "unaryAssoc")
+	}
 	o.DupInLvl = rapid.IntRange(0, 5).Draw(t, "dup") == 0
 	o.Grouped = rapid.IntRange(0, 2).Draw(t, "grouped") == 0
 	o.DirectivesAt = rapid.SampledFrom([]int{0, 0, 1, 2}).Draw(t, "directivesAt")
@@ -852,6 +891,9 @@ func TestOperatorGrammars(t *testing.T) {
 		}
 		if o.DirectivesAt != 0 {
 			cls = append(cls, "directives_after_the_rule")
+		}
+		if o.UnaryAt >= 0 {
+			cls = append(cls, "unary_operator_level_by_rule_handle")
 		}
 		rec.Case(src, len(o.Levels) >= 2 || o.Missing != "", cls...)
 		rec.Sample("ops-"+strings.Join(cls, ","), src)
